@@ -53,7 +53,8 @@ class Contract:
                inline=False, captured=None, pure=False, kind='function',
                on_raise=None, gen_post=None, setup=None, hints=None,
                locals_shapes=None, memo=False, reads=None, at_calls=None,
-               binds=None, fn_qualname=None, const_args=None, impl=None):
+               binds=None, fn_qualname=None, const_args=None, impl=None,
+               returns=None, define_fresh=None):
     self.qualname = qualname
     self.params = params or {}            # name -> Shape (self excluded)
     self.result = result                  # Shape of the result (call side)
@@ -94,6 +95,14 @@ class Contract:
     self.const_args = const_args or {}
     # impl: trusted direct implementation of a call (library-like helper)
     self.impl = impl
+    # returns: fn(s) -> the value the call returns (a spec-function term);
+    # on the callee side it is an obligation `result == returns`
+    self.returns = returns
+    # define_fresh: fn(ctx, values) that turns the symbolic entry state into
+    # the FRESH state; the spec function `returns` is then *defined* as the
+    # value the body computes from that state (definition by cases over the
+    # paths of the fresh run), see driver.fresh_definition
+    self.define_fresh = define_fresh
 
 
 class ClassSpec:
